@@ -147,5 +147,22 @@ func hubWorlds() []wWorld {
 		// hub first in the file list for easy recognition
 		out = append(out, wWorld{Files: fs, Targets: []string{"hub_top.proto"}, Bidi: true})
 	}
+	// the mirror image for Dependents(): two leaves y1, y2, each imported by one file (z1, z2) that
+	// are both imported by the bottom of a chain of d single-importer files - so the dependents of
+	// the two leaves share a long common tail (the shape on which a memo built by appending to
+	// another file's answer is overwritten by a sibling). The file named hub.proto marks the world
+	// for the systematic histories.
+	for d := 1; d <= 10; d++ {
+		fs := []wFile{file("hub_y1.proto", "y1"), file("hub_y2.proto", "y2"),
+			file("hub_z1.proto", "z1", "hub_y1.proto"), file("hub_z2.proto", "z2", "hub_y2.proto"),
+			file("hub.proto", "hub", "hub_z1.proto", "hub_z2.proto")}
+		prev := "hub.proto"
+		for i := 1; i <= d; i++ {
+			n := fmt.Sprintf("hub_c%d.proto", i)
+			fs = append(fs, file(n, fmt.Sprintf("c%d", i), prev))
+			prev = n
+		}
+		out = append(out, wWorld{Files: fs, Targets: []string{prev}, Bidi: true})
+	}
 	return out
 }
